@@ -79,6 +79,22 @@ func roundTrip(x []byte) (sym, det string, m1, m2 *schema.Definitions) {
 		for which, mm := range []*schema.Definitions{m1, m2} {
 			el, ok := mm.FindBy(schema.ExactId(id))
 			if !ok {
+				// ExactId addresses base elements only; an element that carries
+				// an id without being one (documentation) is retrievable through
+				// the same traversal with a predicate on its Id()
+				want := id
+				el, ok = mm.FindBy(func(e schema.Element) bool {
+					if x, isId := e.(interface {
+						Id() (*schema.Id, bool)
+					}); isId {
+						if got, present := x.Id(); present && got != nil && *got == want {
+							return true
+						}
+					}
+					return false
+				})
+			}
+			if !ok {
 				return "findby", fmt.Sprintf("element with id %q not found in model %d", id, which+1), m1, m2
 			}
 			if be, ok := el.(schema.BaseElementInterface); ok {
